@@ -90,7 +90,9 @@ Definition restrict_cmap (ls : labels) (c : cmap) : cmap := map (restrict_sec ls
 Definition restrict_op (ls : labels) (o : op) : op :=
   match o with
   | OSync c => OSync (restrict_cmap ls c)
-  | ONop => ONop
+  | OSame c => OSame (restrict_cmap ls c)
+  | ODelete => ODelete
+  | OOther => OOther
   | OAvail oc => OAvail (option_map (restrict_cmap ls) oc)
   end.
 
@@ -101,14 +103,15 @@ Proof.
   rewrite first_match_filter. reflexivity.
 Qed.
 
-Lemma eff_syncs_restrict ls : forall ops a,
-  eff_syncs a (map (restrict_op ls) ops) = map (option_map (restrict_cmap ls)) (eff_syncs a ops).
+Lemma eff_syncs_restrict ls : forall ops a inf,
+  eff_syncs a (option_map (restrict_cmap ls) inf) (map (restrict_op ls) ops)
+  = map (option_map (restrict_cmap ls)) (eff_syncs a inf ops).
 Proof.
-  induction ops as [|o ops IH]; intros a; [reflexivity|].
-  destruct o as [c| |oc]; simpl.
-  - rewrite IH. reflexivity.
-  - apply IH.
-  - destruct a; simpl; rewrite IH; reflexivity.
+  induction ops as [|o ops IH]; intros a inf; [reflexivity|].
+  cbn [map eff_syncs]. rewrite map_app.
+  replace (inf_after (option_map (restrict_cmap ls) inf) (restrict_op ls o))
+    with (option_map (restrict_cmap ls) (inf_after inf o)) by (destruct o; reflexivity).
+  rewrite IH. f_equal. destruct o; try reflexivity; destruct a; reflexivity.
 Qed.
 
 Lemma sec_in_restrict ls i oc :
@@ -130,7 +133,7 @@ Lemma spec_observe_restrict m sds ls ops :
   spec_observe m sds [ls] (map (restrict_op ls) ops) = spec_observe m sds [ls] ops.
 Proof.
   unfold spec_observe. simpl. f_equal. apply map_ext. intros [i sd]. simpl.
-  rewrite eff_syncs_restrict, last_good_restrict. apply spec_effective_restrict.
+  rewrite (eff_syncs_restrict ls ops false None), last_good_restrict. apply spec_effective_restrict.
 Qed.
 
 (* Over ANY history of ConfigMap events: what node [ls] observes after every event is unchanged
